@@ -120,6 +120,7 @@ type Tx struct {
 	Signers    []string          `json:"signers,omitempty"` // keys that sign; default: required signers
 	Fee        map[string]string `json:"fee,omitempty"`     // denom -> amount
 	FeeGranter string            `json:"granter,omitempty"`
+	FeePayer   string            `json:"payer,omitempty"` // explicit fee payer (co-signs); default: the first signer
 	BadSig     bool              `json:"badsig,omitempty"`
 	SeqDelta   int64             `json:"seqdelta,omitempty"`
 }
@@ -142,10 +143,16 @@ func (t Tx) RequiredSigners() []string {
 			out = append(out, m.From)
 		}
 	}
+	if t.FeePayer != "" && !seen[t.FeePayer] {
+		out = append(out, t.FeePayer) // an explicit fee payer has to sign as well
+	}
 	return out
 }
 
 func (t Tx) Payer() string {
+	if t.FeePayer != "" {
+		return t.FeePayer
+	}
 	rs := t.RequiredSigners()
 	if len(rs) == 0 {
 		return ""
